@@ -77,6 +77,7 @@ struct Scope {
     maps: Vec<(String, Vec<String>)>,
     strs: Vec<String>,
     funcs: Vec<(String, usize)>,
+    objs: Vec<String>,
     in_loop: bool,
     in_func: bool,
 }
@@ -275,7 +276,15 @@ impl<'a> Gen<'a> {
     }
 
     fn simple(&mut self, sc: &Scope) -> S {
-        match self.rng.weighted(&[6, 5, 3, 2, 2]) {
+        match self.rng.weighted(&[6, 5, 3, 2, 2, 2]) {
+            5 if !sc.objs.is_empty() => {
+                // h.show({ka: …}) — a map passed to a chained call (block form: map block on
+                // continuation lines)
+                let h = self.rng.pick(&sc.objs).clone();
+                let (m, _) = self.map_lit(sc, 2);
+                self.note("s:map-arg-call");
+                S::Expr(E::Chain(Box::new(E::Var(h)), vec![Link::Method("show".into(), vec![m])]))
+            }
             0 if !sc.ints.is_empty() => {
                 let v = self.rng.pick(&sc.ints).clone();
                 S::Assign(v, self.int(sc, 2))
@@ -448,7 +457,7 @@ impl<'a> Gen<'a> {
         let params: Vec<String> = (0..k).map(|_| self.fresh("a")).collect();
         // the body sees the globals read-only (never assigns to them): only its own locals are
         // assignable, so closures never capture-and-reassign (shape of F-C02-1, excluded)
-        let mut s2 = Scope { funcs: sc.funcs.clone(), in_func: true, ..Default::default() };
+        let mut s2 = Scope { funcs: sc.funcs.clone(), objs: sc.objs.clone(), in_func: true, ..Default::default() };
         let globals: Vec<String> = sc.ints.clone();
         let mut body = vec![];
         let nl = self.rng.below(3);
@@ -503,6 +512,13 @@ impl<'a> Gen<'a> {
             let e = self.string(&sc);
             out.push(S::Assign(v.clone(), e));
             sc.strs.push(v);
+        }
+        if self.rng.chance(1, 2) {
+            let v = self.fresh("h");
+            let q = self.fresh("q");
+            let body = E::Call("print".into(), vec![E::Chain(Box::new(E::Var(q.clone())), vec![Link::Field("ka".into())])]);
+            out.push(S::Assign(v.clone(), E::Map(vec![("show".into(), E::Lambda(vec![q], Box::new(body)))])));
+            sc.objs.push(v);
         }
         let nf = self.rng.below(3);
         for _ in 0..nf {
